@@ -43,6 +43,12 @@ CHECKS["C06"] = dict(cat="proof", tech=TECH + "; plus exhaustive static read/wri
 CHECKS["C04"] = dict(cat="proof", tech=TECH,
    text="Contracts on Signal, EmptySignal and FunctionSignal: construction keeps one value per sample for every pair of array lengths, every operator/copy/re-gridding result is free of aliasing with its operands (heap identities), addition is pointwise with the stated refusals and neutral elements for all type pairs, scaling is element-wise, re-gridding calls np.interp with zero fill / re-evaluates the function; symbolic array lengths and contents.",
    note=PROOF_NOTE + " The interpolation law itself is numpy's assumed contract (A5).", ref="§5 C04")
+CHECKS["C11"] = dict(cat="proof", tech=TECH,
+   text="Contracts on the HDF5 writer against a model of h5py datasets: index-table writes, every per-table writer (rows appended at the old counter, (start, length) recorded for the current event, counters = row counts), the complete option logic of add() (all 192 option/trigger combinations), rejections, and counter recovery in append mode; symbolic counters and event numbers.",
+   note=PROOF_NOTE + " h5py is a model (A8); metadata encoding helpers are assumed contracts (A11); known finding D9 is listed in known_findings.json.", ref="§5 C11")
+CHECKS["C12"] = dict(cat="proof", tech=TECH,
+   text="Contracts on the chunked EventIterator (inductive step of __next__ over arbitrary states, chunk loading by index entries), HDF5Reader indexing/slicing/iteration, and FileGenerator replay across files and chunk sizes, against a model of the index and data tables.",
+   note=PROOF_NOTE + " Chunk sizes for _load_data and FileGenerator scenarios are bounded (B); h5py is a model (A8).", ref="§5 C12")
 NOT_YET = {}
 def main():
     props = [json.loads(l) for l in open(os.path.join(HERE, "properties.jsonl"))]
